@@ -159,7 +159,7 @@ func TestWiringThroughManager(t *testing.T) {
 			N:        rapid.SampledFrom([]int{1, 2, 2, 3, 5}).Draw(rt, "n"),
 			Period:   time.Duration(rapid.SampledFrom([]int{0, 0, 1, 3, 7}).Draw(rt, "period_s")) * time.Second,
 			Interval: time.Duration(rapid.SampledFrom([]int{1, 1, 2}).Draw(rt, "interval_s")) * time.Second,
-			Cooldown: time.Duration(rapid.SampledFrom([]int{0, 2, 5, 60, 300}).Draw(rt, "cooldown_s")) * time.Second,
+			Cooldown: time.Duration(rapid.SampledFrom([]int{0, 2, 5, 60, 300, 45, 100, 31}).Draw(rt, "cooldown_s")) * time.Second,
 		}
 		script := genRuns(s.N).Draw(rt, "script")
 		if len(script) > 40 {
